@@ -36,12 +36,11 @@ def extra_hooks():
         std_ok(r'^<&?Box<(?:indexmap::)?IndexMap<.*>> as PartialEq>::eq$', fb),
         std_ok(r'^(?:core::)?slice::<impl \[.*Value\]>::contains$', fb), std_ok(r'^(?:indexmap::)?IndexMap::<.*>::contains_key::<.*>$', fb),
         std_ok(r'^(?:core::)?str::<impl str>::contains::<.*>$', fb),
-        std_ok(r'^(?:std::)?f64::<impl f64>::(powi|powf)$', ff),
         std_ok(r'^<Box<str> as Into<String>>::into$|^(?:std::)?str::<impl str>::into_string$|^Box::<str>::into_string$|^<Box<str> as Clone>::clone$', lambda ex, st, a: Opaque('string')),
         std_ok(r'^(?:std::string::)?String::push_str$', lambda ex, st, a: []),
         std_ok(r'^<(?:std::string::)?String as Into<Box<str>>>::into$', lambda ex, st, a: box(V.StrTok(ex.fresh('s', 16)))),
         std_ok(r'^<(?:std::string::)?String as Clone>::clone$', lambda ex, st, a: Opaque('string')),
-        std_ok(r'^<Box<str> as Deref>::deref$|^<String as Deref>::deref$|^<Arc<str> as Deref>::deref$', lambda ex, st, a: box(Opaque('str'))),
+        std_ok(r'^<Box<str> as Deref>::deref$|^<(?:std::string::)?String as Deref>::deref$|^<Arc<str> as Deref>::deref$', lambda ex, st, a: box(Opaque('str'))),
         std_ok(r'^<Box<Vec<.*>> as Deref>::deref$|^<Vec<.*> as Deref>::deref$|^<Box<(?:indexmap::)?IndexMap<.*>> as Deref>::deref$', lambda ex, st, a: box(Opaque('container'))),
     ]
 
